@@ -34,6 +34,8 @@ fn to_future_resolves_to_documented_outcome() {
       (0, None) => assert!(matches!(r, Err(ObservableError::Empty))),
       (1, None) => assert!(matches!(r, Ok(Ok(v)) if v == items[0])),
       (0, Some(e)) => assert!(matches!(r, Ok(Err(x)) if x == e)),
+      // items followed by an error: MultipleValues or the error itself are both accepted
+      (_, Some(e)) => assert!(matches!(r, Err(ObservableError::MultipleValues)) || matches!(r, Ok(Err(x)) if x == e)),
       _ => assert!(matches!(r, Err(ObservableError::MultipleValues))),
     },
   }
